@@ -48,6 +48,15 @@ def r2_create_builtins(ctx):
         k = alt.get(k, k)
         where = b.where(bi)
         if k not in want:
+            # a key the rule cannot name (the built-ins listed in a table and created in a loop): the clause "present ⇒ not overwritten" is still decidable —
+            # with `pools.get(<that same key>)` forced to be present the insertion must be unreachable (a re-creation test that also looks at the reserves
+            # re-seeds a drained pool out of nothing, block after block)
+            kk = k
+            tbl_abs_, tbl_pre_ = q.presence_tests(b, lambda sx: sx.endswith("%s)" % kk))
+            if tbl_pre_:
+                f2_ = force(b, tbl_pre_)
+                r.check(bi not in f2_.reach, "insert/Any/Key/present=>kept", "present ⇒ not overwritten (key %s)" % k[:60],
+                        "an existing pool is overwritten: with pools.get(key) present the insertion under that key is still reachable", where)
             r.violation("insert/unexpected:" + k, "create_builtins inserts a pool under %s" % k, where)
             continue
         seen.add(k)
@@ -202,6 +211,9 @@ def shared(ctx):
     requests touch coins), requests name their pool canonically (C15.R2) and only genuine requests are selected (C15.R1)."""
     from rules.engine import core
     from rules.props import c01
+    # 'built-in pools keep non-zero reserves': the protocol's own trades against them (TIP-909 subsidies, the peg nudge) go through PoolState::swap_many, whose
+    # payout is priced AFTER the incoming amount is credited and therefore never reaches the other reserve (C01.R8 reads the subsidy and peg stages)
+    core.import_rules(ctx, [c01.r8_subsidy_peg], "X01")
     core.import_rules(ctx, [c01.r6_floor], "X01")          # shares rounded DOWN: rounded to nearest, the liquidity tokens handed out for one block can exceed what the pool records
     from rules.props import c06
     core.import_rules(ctx, [c06.r5_activation_table], "X06")          # "once enabled the ERG/SYM pool exists": enabled = TIP-902, in create_builtins and in the pegging step alike
